@@ -23,8 +23,21 @@ def _build(kinds, edges, attach):
             # if everything it depends on is also upstream of the call that writes it (otherwise the
             # producer may legitimately run before an upstream write and the source is born out of date)
             in_dep.append(wi)
+        elif k == "Q":
+            # stored call + a source over the same store that depends on it ("source dependent on write")
+            ci = len(spec)
+            spec.append({"kind": "C", "args": [], "deps": []})
+            spec.append({"kind": "A", "of": ci, "deps": [ci]})
+            out_idx.append(ci + 1)
+            in_arg.append(ci)
+            in_dep.append(ci)
         else:
             spec.append({"kind": k, "args": [], "deps": []})
+            if k == "L":
+                # a literal only takes plain dependencies and must have at least one (else it is a plain constant)
+                inc = [attach[j]] + [edges.get((i, j)) for i in range(j)]
+                if any(e and "a" in e for e in inc) or not any(inc):
+                    return None
             out_idx.append(len(spec) - 1)
             in_arg.append(len(spec) - 1)
             in_dep.append(len(spec) - 1)
@@ -50,7 +63,7 @@ def _build(kinds, edges, attach):
     return spec
 
 
-def family(nslots, edge_menu=(None, "a", "d", "ad"), attach_menu=(None, "a", "d"), kinds_menu=("C", "U", "P")):
+def family(nslots, edge_menu=(None, "a", "d", "ad"), attach_menu=(None, "a", "d"), kinds_menu=("C", "U", "P", "L")):
     pairs = [(i, j) for i in range(nslots) for j in range(i + 1, nslots)]
     for kinds in itertools.product(kinds_menu, repeat=nslots):
         for combo in itertools.product(edge_menu, repeat=len(pairs)):
@@ -58,7 +71,9 @@ def family(nslots, edge_menu=(None, "a", "d", "ad"), attach_menu=(None, "a", "d"
             for attach in itertools.product(attach_menu, repeat=nslots):
                 if not any(k in ("C", "P") for k in kinds):
                     continue  # nothing stored besides the source: no state
-                yield _build(kinds, edges, attach)
+                sp = _build(kinds, edges, attach)
+                if sp is not None:
+                    yield sp
 
 
 def S(): return {"kind": "S"}
@@ -66,6 +81,8 @@ def C(*a, deps=()): return _mk("C", a, deps)
 def U(*a, deps=()): return _mk("U", a, deps)
 def W(t, *a, deps=()): d = _mk("W", a, deps); d["target"] = t; return d
 def D(*deps): return {"kind": "D", "deps": list(deps)}
+def L(*deps): return {"kind": "L", "deps": list(deps)}
+def A(of, *deps): return {"kind": "A", "of": of, "deps": [of] + list(deps)}
 
 
 def _mk(k, a, deps):
@@ -94,17 +111,37 @@ CURATED = {
     "two-writers-one-source": [S(), C(0), W(4, 1), U(1, deps=[2]), D(2, 3), C(4)],
     "dependent-source-chain": [S(), W(2, 0), D(1), W(4, 2), D(3), C(4)],
     "stored-then-dependent-source": [S(), C(0), W(3, 1), D(2), C(3, 1)],
+    "literal-arg-with-dependency": [S(), C(0), L(1), C(2)],
+    "literal-dep-with-dependency": [S(), C(0), L(1), C(deps=[2])],
+    "literal-hub": [S(), C(0), U(0), L(1, 2), C(3), U(deps=[3])],
+    "literal-from-source": [S(), L(0), U(1), C(2)],
+    "alias-source": [S(), C(0), A(1)],
+    "alias-source-consumed": [S(), C(0), A(1), C(2)],
+    "alias-source-reader-call": [S(), C(0), A(1), U(deps=[2]), C(3)],
+    "alias-chain": [S(), C(0), A(1), C(2), A(3), U(4)],
 }
 
 
 def quick_specs():
     out = [("fam1", s) for s in family(1)]
-    out += [("fam2", s) for s in family(2, attach_menu=(None, "a"))]
+    out += [("fam2", s) for s in family(2, attach_menu=(None, "a", "d")) if any(nd["kind"] == "L" for nd in s)]
+    out += [("fam2", s) for s in family(2, attach_menu=(None, "a"), kinds_menu=("C", "U", "P"))]
+    out += [("fam2q", s) for s in family(2, edge_menu=(None, "a", "d"), attach_menu=(None, "a"), kinds_menu=("C", "U", "Q")) if any(nd["kind"] == "A" for nd in s)]
     out += [(name, s) for name, s in CURATED.items() if name not in SLOW]
     return out
 
 
-SLOW = ("two-writers-one-source", "dependent-source-chain", "chain-2-unstored", "fan-out", "two-sources-join")
+SLOW = ("two-writers-one-source", "dependent-source-chain", "chain-2-unstored", "fan-out", "two-sources-join", "alias-chain", "literal-hub")
+
+
+def has_registered_dependency(spec):
+    """Plans in which the order of registry entries can matter: a value-store node with a value-store ancestor."""
+    from .e2 import TIMED, ancestors
+    anc = ancestors(spec)
+    return any(nd["kind"] in TIMED and any(spec[a]["kind"] in TIMED for a in anc[i]) for i, nd in enumerate(spec))
+
+
+POPS_QUICK = ("dependent-source", "alias-source-consumed", "literal-arg-with-dependency", "plain-dep-chain", "two-sources-shared", "fam1")
 
 
 def thorough_specs():
